@@ -964,24 +964,28 @@ int json_object_int_inc(struct json_object *jso, int64_t val)
 		}
 		return 1;
 	case json_object_int_type_uint64:
+	{
+		/* magnitude of a negative val, without negating INT64_MIN as a signed value */
+		const uint64_t negval = (uint64_t)0 - (uint64_t)val;
 		if (val > 0 && jsoint->cint.c_uint64 > UINT64_MAX - (uint64_t)val)
 		{
 			jsoint->cint.c_uint64 = UINT64_MAX;
 		}
-		else if (val < 0 && jsoint->cint.c_uint64 < (uint64_t)(-val))
+		else if (val < 0 && jsoint->cint.c_uint64 < negval)
 		{
 			jsoint->cint.c_int64 = (int64_t)jsoint->cint.c_uint64 + val;
 			jsoint->cint_type = json_object_int_type_int64;
 		}
-		else if (val < 0 && jsoint->cint.c_uint64 >= (uint64_t)(-val))
+		else if (val < 0 && jsoint->cint.c_uint64 >= negval)
 		{
-			jsoint->cint.c_uint64 -= (uint64_t)(-val);
+			jsoint->cint.c_uint64 -= negval;
 		}
 		else
 		{
 			jsoint->cint.c_uint64 += val;
 		}
 		return 1;
+	}
 	default: json_abort("invalid cint_type");
 	}
 }
